@@ -6,7 +6,7 @@
    [agrees] replays the history on the model (KConc: searches a linearization by the model);
    [C19_ok] evaluates the property clauses directly on consecutive *observed* states - it never
    calls [step]. *)
-From SC Require Import Base.Prelude Electric.Model.
+From SC Require Import Base.Prelude Electric.Model Electric.Config Electric.UpdateOpts.
 
 Record obs := mkObs { ocode : Z; oret : option emode; omodes : list emode; oactive : emode; onormal : option emode }.
 
@@ -20,7 +20,16 @@ Inductive c19case :=
 | KConc (initial : list emode) (now : Z) (threads : list (list cop)) (fin : obs)
 (* the PullModes and PullActiveMode streams (with back-pressure, so nothing is dropped) of a
    sequential history, subscribed before the first operation *)
-| KStream (initial : list emode) (steps : list (Z * op)) (mev : list mevent) (aev : list emode).
+| KStream (initial : list emode) (steps : list (Z * op)) (mev : list mevent) (aev : list emode)
+(* a sequential history on a model constructed from an option list (Electric/Config.v):
+   [panicked] = NewModel(opts...) panicked (then there is nothing else); the time of a step is the
+   base time the harness gave its clocks, the stamping clock is decided by the option list;
+   [evclk] = which clocks (0 = real) the change times of a PullModes / PullActiveMode event
+   produced after the history showed, when measured *)
+| KCfg (opts : list copt) (panicked : bool) (o0 : obs) (steps : list (Z * op * obs)) (evclk : option (Z * Z))
+(* one Model.UpdateMode call with write options (Electric/UpdateOpts.v) on a store observed key by
+   key (FindMode) before and after *)
+| KOpt (l : kstore) (m : emode) (w : wopts) (code : Z) (ret : option emode) (l' : kstore).
 
 Definition emodes_eqb := list_eqb emode_eqb.
 Definition oemode_eqb := option_eqb emode_eqb.
@@ -133,8 +142,26 @@ Fixpoint predict (s : state) (last : emode) (steps : list (Z * op)) : list meven
       (modes_diff (modes s) (modes s') ++ me, a ++ ae)
   end.
 
+Definition retime (k : Z) (steps : list (Z * op * obs)) : list (Z * op * obs) :=
+  map (fun p => (clock_reading k (fst (fst p)), snd (fst p), snd p)) steps.
+
+Definition kstore_eqb : kstore -> kstore -> bool :=
+  list_eqb (fun p q => String.eqb (fst p) (fst q) && emode_eqb (snd p) (snd q)).
+
 Definition agrees (c : c19case) : bool :=
   match c with
+  | KOpt l m w code ret l' =>
+      let '(ml, mc, mr) := update_w true l m w in
+      kstore_eqb ml l' && (mc =? code) && oemode_eqb mr ret
+  | KCfg opts panicked o0 steps evclk =>
+      match new_model opts with
+      | None => panicked && is_nil steps
+      | Some s0 => negb panicked && obs_matches s0 (ok_ None) o0 && replay s0 (retime (cfg_clock opts) steps)
+                   && match evclk with
+                      | None => true
+                      | Some (mk, ak) => (mk =? cfg_mclock opts) && (ak =? cfg_aclock opts)
+                      end
+      end
   | KSeq initial o0 steps =>
       obs_matches (init_state initial) (ok_ None) o0 && replay (init_state initial) steps
   | KConc initial now threads fin =>
@@ -264,6 +291,15 @@ Fixpoint views_ok (l : list emode) (evs : list mevent) : bool :=
 
 Definition C19_ok (c : c19case) : bool :=
   match c with
+  | KOpt l m w code ret l' =>
+      (* every mode is stored under its id, once (what "the active mode refers to a mode that exists" and
+         "the active mode is never deleted" rest on), at most one mode is normal, the returned mode is the one addressed *)
+      keyedb l' && distinct (map fst l') && (zlen (normals (bodies l')) <=? 1)
+      && match ret with Some b => String.eqb (mid b) (mid m) | None => true end
+  | KCfg opts panicked o0 steps _ =>
+      (* the same clauses as for KSeq; "the model clock" = the clock of the last electricpb.WithClock *)
+      panicked || ((zlen (normals (omodes o0)) <=? 1)
+                   && steps_ok (omodes o0) (oactive o0) false (retime (cfg_clock opts) steps))
   | KSeq initial o0 steps =>
       (zlen (normals (omodes o0)) <=? 1) && steps_ok (omodes o0) (oactive o0) false steps
   | KConc initial now threads fin =>
@@ -293,8 +329,16 @@ Definition initial_ok (initial : list emode) : bool :=
 Definition op_guard (o : op) : bool :=
   match o with ODelete id _ => negb (is_empty id) | _ => true end.
 
+(* configured modes carry ids and at most one of them is normal (duplicates are not excluded:
+   NewModel panics on them, which the model predicts) *)
+Definition cfg_ok (opts : list copt) : bool :=
+  forallb (fun m => negb (is_empty (mid m))) (cfg_records opts)
+  && (zlen (normals (cfg_records opts)) <=? 1).
+
 Definition C19_guard (c : c19case) : bool :=
   match c with
+  | KOpt l _ _ _ _ _ => keyedb l && distinct (map fst l) && (zlen (normals (bodies l)) <=? 1)
+  | KCfg opts _ _ steps _ => cfg_ok opts && forallb (fun p => op_guard (snd (fst p))) steps
   | KSeq initial _ steps => initial_ok initial && forallb (fun p => op_guard (snd (fst p))) steps
   | KConc initial _ threads _ => initial_ok initial && forallb (forallb (fun c => op_guard (cop_op c))) threads
   | KStream initial steps _ _ =>
